@@ -135,6 +135,35 @@ fn erase_sync(line: &str) -> String {
     format!("{} bytes={}", rest.join(" "), total)
 }
 
+/// (first output line, order token) of every op whose GC pass visited at least two empty queues
+fn gc_orders(r: &Runner) -> Vec<(usize, String)> {
+    let mut v = Vec::new();
+    for (i, a) in r.annot.iter().enumerate() {
+        if let Some(tok) = a.split(' ').find_map(|t| t.strip_prefix("order=")) {
+            if tok.contains(',') {
+                v.push((r.out_idx.get(i).copied().unwrap_or(usize::MAX), tok.to_string()));
+            }
+        }
+    }
+    v
+}
+
+/// what of an observation line does not depend on the byte layout of the WAL
+fn logical_only(line: &str) -> String {
+    let toks: Vec<&str> = line.split(' ').collect();
+    match line.as_bytes().first() {
+        Some(b'R') => match toks.get(1).copied() {
+            Some("appended") | Some("truncated") => toks[..toks.len().min(3)].join(" "),
+            Some("created") | Some("deleted") => toks[..2].join(" "),
+            _ => line.to_string(),
+        },
+        Some(b'E') | Some(b'F') | Some(b'D') => String::new(),
+        Some(b'O') => toks[..toks.len().min(2)].join(" "),
+        Some(b'S') => toks.iter().filter(|t| !t.starts_with("ff=")).cloned().collect::<Vec<_>>().join(" "),
+        _ => line.to_string(),
+    }
+}
+
 /// C14: one history under every policy in lock-step
 pub fn case_lockstep(scratch: &Path, meta: usize, id: &str, seed: u64, len: usize, replay: Option<&Case>) -> CaseResult {
     let mut rng = Rng::new(seed);
@@ -159,6 +188,7 @@ pub fn case_lockstep(scratch: &Path, meta: usize, id: &str, seed: u64, len: usiz
         }
     };
     let base_lines = base.out.clone();
+    let base_orders = gc_orders(&base);
     let mut all = finish_pub(base, &format!("{}-always:flush", id), true);
     let pols = [Pol::Nothing, Pol::DelayFlush, Pol::DelayFsync, Pol::DelayNowFlush, Pol::DelayNowFsync, Pol::AlwaysFsync];
     for pol in pols {
@@ -176,12 +206,26 @@ pub fn case_lockstep(scratch: &Path, meta: usize, id: &str, seed: u64, len: usiz
         if r.out.len() != base_lines.len() {
             r.violate("C14", format!("policy {}: {} observation lines, {} under always:flush", pol.tok(), r.out.len(), base_lines.len()));
         } else {
+            // the GC writes the positions of the empty queues in hash-map order, which differs from
+            // one log object to the next: once two runs have written >= 2 such entries in different
+            // orders, padding at a block end may shift every later offset, byte count and file
+            // boundary. From that line on only the LOGICAL observations are compared (the exact
+            // bytes are compared per policy with the model, which gets the order as an input)
+            let orders = gc_orders(&r);
+            let div_line = orders.iter().zip(base_orders.iter()).find(|(a, b)| a.1 != b.1).map(|(a, _)| a.0).unwrap_or(usize::MAX);
+            if div_line != usize::MAX {
+                all.stats.inc("lockstep.gc_order_diverged");
+            }
             let mut viol = None;
-            for (a, b) in r.out.iter().zip(base_lines.iter()) {
-                let same = match a.as_bytes().first() {
-                    Some(b'E') => erase_sync(a) == erase_sync(b),
-                    Some(b'D') => true,
-                    _ => a == b,
+            for (i, (a, b)) in r.out.iter().zip(base_lines.iter()).enumerate() {
+                let same = if i >= div_line {
+                    logical_only(a) == logical_only(b)
+                } else {
+                    match a.as_bytes().first() {
+                        Some(b'E') => erase_sync(a) == erase_sync(b),
+                        Some(b'D') => true,
+                        _ => a == b,
+                    }
                 };
                 if a.starts_with('O') {
                     last_was_reopen = true;
@@ -434,7 +478,9 @@ pub fn case_names(scratch: &Path, meta: usize, id: &str, seed: u64, len: usize, 
 
 const EDGE_TAG: &str = "[position bound 2^64-1] ";
 
-/// positions at the top of the u64 range (finding F4); no model comparison (the model is over Nat)
+/// positions at the top of the u64 range (finding F4). The model's panic-instrumented twins
+/// (`Log.stepP` for calls, `recoverP` for open) say exactly which calls overflow: outcomes,
+/// effects (what was written before the panic) and states are compared like everywhere else
 pub fn case_edge(scratch: &Path, meta: usize, id: &str, seed: u64, _len: usize, replay: Option<&Case>) -> CaseResult {
     let mut rng = Rng::new(seed);
     let mut r = Runner::new(scratch.join(id), meta);
@@ -444,11 +490,14 @@ pub fn case_edge(scratch: &Path, meta: usize, id: &str, seed: u64, _len: usize, 
         None => {
             let mut v = vec![Op::Open(Pol::AlwaysFlush), Op::Create("q".into())];
             for _ in 0..(2 + rng.below(4)) {
-                let p = max - rng.below(3);
-                v.push(match rng.below(3) {
+                let p = max - rng.below(4);
+                let n = rng.below(4) as usize;
+                let payloads: Vec<Payload> = (0..n).map(|i| Payload::Gen { len: 3, seed: i as u64 }).collect();
+                v.push(match rng.below(4) {
                     0 => Op::Truncate { q: "q".into(), pos: p },
-                    1 => Op::Append { q: "q".into(), pos: Some(p), payloads: vec![Payload::Gen { len: 3, seed: 1 }] },
-                    _ => Op::Append { q: "q".into(), pos: None, payloads: vec![Payload::Gen { len: 3, seed: 2 }] },
+                    1 => Op::Append { q: "q".into(), pos: Some(p), payloads },
+                    2 => Op::Append { q: "q".into(), pos: None, payloads },
+                    _ => Op::State,
                 });
             }
             v.push(Op::Reopen(Pol::AlwaysFlush));
@@ -464,8 +513,12 @@ pub fn case_edge(scratch: &Path, meta: usize, id: &str, seed: u64, _len: usize, 
             _ => {}
         }
         let tag = if extreme { EDGE_TAG } else { "" };
+        if r.real.log.is_none() && !matches!(op, Op::Open(_) | Op::Reopen(_)) {
+            // nothing can be done on a dropped log until the next reopen
+            continue;
+        }
         let ex = r.real.exec(op);
-        r.ops.push((false, op.clone()));
+        r.record(op, &ex);
         r.stats.inc("edge.ops");
         if let Outcome::Panic(msg) | Outcome::OpenPanic(msg) = &ex.outcome {
             let prop = if matches!(op, Op::Open(_) | Op::Reopen(_)) { "C10" } else { "C05" };
@@ -476,17 +529,13 @@ pub fn case_edge(scratch: &Path, meta: usize, id: &str, seed: u64, _len: usize, 
             r.violate("C10", format!("{}`{}` did not return", tag, op.line()));
             break;
         }
-        if r.real.log.is_none() && !matches!(op, Op::Open(_) | Op::Reopen(_)) {
-            // nothing more can be done on a dropped log until the next reopen
-            continue;
-        }
     }
-    r.annot.clear();
-    r.out.clear();
-    let mut res = finish_pub(r, id, true);
-    res.annot.clear();
-    res.out.clear();
-    res
+    if r.real.log.is_some() {
+        let st = Op::State;
+        let ex = r.real.exec(&st);
+        r.record(&st, &ex);
+    }
+    finish_pub(r, id, true)
 }
 
 /// C10 on WAL files LONGER than the nominal size (a file extended by whole blocks of valid
